@@ -1,7 +1,9 @@
 // Package c16: "Authentication secrets never reach the debug log" (C16).
 // The real mechanisms are driven through smtp.Client.Auth (and, for the option plumbing, through
 // mail.Client.DialWithContext) against reference SASL servers (harness/saslx) whose honest behaviour is disturbed
-// at one step: 535, malformed challenge, unexpected extra challenge, disconnect; also wrong credentials.
+// at one step: 535, malformed challenge, unexpected extra challenge, disconnect; also wrong credentials.  Sessions
+// come in three hello modes: explicit Client.Hello before Auth, Auth as the first command on the connection (the
+// implicit EHLO inside Auth is then logged with the logger attached), and the same with the HELO fallback.
 //
 // observable (compared with the model, kind auth16): result class, authIsActive / connection closed at return,
 // every line written, every log.Log record handed to a capturing logger (direction + rendered text), and the two
@@ -47,13 +49,16 @@ func (c *capLogger) Errorf(l log.Log) { c.add(l) }
 
 // ---- scenarios ----
 type scenario struct {
-	mech     string // plain login cram xoauth2 sha1 sha256 sha256plus
-	mut      string // none f535 malformed extra drop wrongpw
-	at       int    // step the mutation applies to
-	user     string
-	secret   string
-	lad      bool
-	tlsState *tls.ConnectionState
+	mech   string // plain login cram xoauth2 sha1 sha256 sha256plus
+	mut    string // none f535 malformed extra drop wrongpw
+	at     int    // step the mutation applies to
+	user   string
+	secret string
+	lad    bool
+	// helloLines: EHLO/HELO lines of the last run that happened with the logger attached (implicit hello inside Auth)
+	helloLines int
+	hello      string // "e" explicit Client.Hello before Auth, "i" implicit EHLO inside Auth, "h" implicit with HELO fallback
+	tlsState   *tls.ConnectionState
 }
 
 type reply struct {
@@ -231,17 +236,18 @@ var capsLine = "AUTH PLAIN LOGIN CRAM-MD5 XOAUTH2 SCRAM-SHA-1 SCRAM-SHA-256 SCRA
 // one run through smtp.Client.Auth with the given logger; returns class, lines, replies, whether closed
 func runSMTP(sc *scenario, lg log.Logger) (string, []string, []reply, bool, error) {
 	st := &scripted{ref: newRef(sc), sc: sc}
-	sess, err := saslx.NewSession("localhost", []string{capsLine}, func(line string) string {
+	sess, err := saslx.NewSessionHello("localhost", []string{capsLine}, func(line string) string {
 		r, ok := st.onLine(line)
 		if !ok {
 			return ""
 		}
 		return saslx.FormatReply(r.code, r.text)
-	})
+	}, sc.hello)
 	if err != nil {
 		return "", nil, nil, false, err
 	}
 	c := sess.Client
+	defer func() { sc.helloLines = sess.HelloLines }()
 	c.SetLogger(lg)
 	c.SetDebugLog(true)
 	if sc.lad {
@@ -385,6 +391,10 @@ func runCase(r *hx.Run, c hx.Case) {
 		sc.at, _ = strconv.Atoi(c.Args[2])
 		sc.lad = c.Args[3] == "1"
 		sc.user, sc.secret = string(hx.UnHex(c.Args[4])), string(hx.UnHex(c.Args[5]))
+		sc.hello = "e"
+		if len(c.Args) > 6 {
+			sc.hello = c.Args[6]
+		}
 		if sc.mech == "sha256plus" {
 			sc.tlsState = saslx.TLSState(tls.VersionTLS13)
 		}
@@ -399,8 +409,17 @@ func runCase(r *hx.Run, c hx.Case) {
 		nd := needles(&sc, lines)
 		var authRecs, postRecs [][]byte
 		authRecs = cap.recs
-		if !closed && len(cap.recs) >= 2 {
-			authRecs, postRecs = cap.recs[:len(cap.recs)-2], cap.recs[len(cap.recs)-2:]
+		if sc.hello != "e" {
+			// the implicit EHLO (and HELO) inside Auth was logged too: two records per hello line, before the AUTH records;
+			// the model starts after the hello exchange
+			nh := 2 * sc.helloLines
+			if nh > len(authRecs) {
+				nh = len(authRecs)
+			}
+			authRecs = authRecs[nh:]
+		}
+		if !closed && len(authRecs) >= 2 {
+			authRecs, postRecs = authRecs[:len(authRecs)-2], authRecs[len(authRecs)-2:]
 		}
 		var authLines []string
 		for _, l := range lines {
@@ -445,6 +464,7 @@ func runCase(r *hx.Run, c hx.Case) {
 		observable := fmt.Sprintf("%s 0 %s S:%s L:%s P:%s", hx.Hex([]byte(class)), b2s(closed), hexLines(authLines), hx.HexList(authRecs), post)
 		r.Dist["mech:"+sc.mech]++
 		r.Dist["mut:"+sc.mut]++
+		r.Dist["hello:"+sc.hello]++
 		r.Dist["result:"+class]++
 		r.Add(mc, observable, sc.mut != "none")
 		if sc.lad {
@@ -605,6 +625,12 @@ func Run(r *hx.Run, replay []hx.Case) {
 					user := users[i%len(users)]
 					args := []string{m, mu.mut, strconv.Itoa(mu.at), lad, hx.Hex([]byte(user)), hx.Hex([]byte(secretOf(r, i)))}
 					runCase(r, hx.Case{ID: r.NewID(), Kind: "sc", Args: args})
+					// Auth as the FIRST command on the connection (implicit EHLO inside Auth; HELO fallback)
+					if lad == "0" && (mu.mut == "none" || mu.mut == "wrongpw" || (mu.mut == "f535" && mu.at == steps[m]-1) || (mu.mut == "malformed" && mu.at == 0)) {
+						for _, h := range []string{"i", "h"} {
+							runCase(r, hx.Case{ID: r.NewID(), Kind: "sc", Args: append(append([]string{}, args...), h)})
+						}
+					}
 					if m != "sha256plus" && (round == 0 || r.Tier == "thorough") {
 						runCase(r, hx.Case{ID: r.NewID(), Kind: "mc", Args: args})
 					}
